@@ -262,7 +262,13 @@ func (w *oracleWorkload) Next(block int) []rig.Tx {
 				if w.reqFeed[id] == "tka-stake" {
 					lit, cls = fmt.Sprintf("%d.%02d", 1+rng.Intn(5), rng.Intn(100)), "rate"
 				}
-				out = append(out, r.Mk(p, &orTag{Kind: "respond", Req: id, Feed: w.reqFeed[id], Val: lit, Role: cls}, svcRespond(p, id, `{"last":`+lit+`}`)))
+				body := `{"last":` + lit + `}`
+				if rng.Intn(5) == 0 {
+					// the number given as a JSON string (the extraction reads it as the number it spells)
+					body, cls = `{"last":"`+lit+`"}`, cls+"/quoted"
+					w.run.Count("answers-with-the-number-given-as-a-string", 1)
+				}
+				out = append(out, r.Mk(p, &orTag{Kind: "respond", Req: id, Feed: w.reqFeed[id], Val: lit, Role: cls}, svcRespond(p, id, body)))
 				if rng.Intn(8) == 0 { // duplicate answer
 					lit2, _ := w.number()
 					out = append(out, r.Mk(p, &orTag{Kind: "respond-duplicate", Req: id, Feed: w.reqFeed[id], Val: lit2}, svcRespond(p, id, `{"last":`+lit2+`}`)))
